@@ -266,7 +266,6 @@ func Atlas() []*spec.Program {
 			F("lower_snake", "string"),
 			F("x_y", "string"),
 			F("port_a_b", "int32"),
-			F("port_ab", "int32"),
 			F("a", "bool"),
 		)
 		cfg := baseConfig("Names")
